@@ -456,3 +456,100 @@ def _why_setty(e, setty: dict[str, str], set_returning: dict[str, str]) -> str |
     if isinstance(e, ast.BinOp) and isinstance(e.op, (ast.BitOr, ast.BitAnd, ast.Sub, ast.BitXor)):
         return _why_setty(e.left, setty, set_returning) or _why_setty(e.right, setty, set_returning)
     return None
+
+
+# ---------------------------------------------------------------------------------------------------------------------
+# ownership of returned containers: a caller that mutates the result of a call needs the callee to hand out a FRESH object
+# ---------------------------------------------------------------------------------------------------------------------
+_MUTATORS = {"update", "pop", "popitem", "clear", "setdefault", "append", "extend", "insert", "remove", "add", "discard", "sort", "reverse"}
+_FRESH_CALLS = {"dict", "list", "set", "sorted", "tuple", "frozenset", "copy", "deepcopy", "defaultdict", "OrderedDict"}
+
+
+def mutated_call_results(fn: ast.FunctionDef) -> list[dict]:
+    """Locals of fn that are bound to the result of a method/function call and then mutated in place in fn."""
+    bound: dict[str, ast.Call] = {}
+    for n in _own_nodes(fn):
+        if isinstance(n, ast.Assign) and len(n.targets) == 1 and isinstance(n.targets[0], ast.Name) and isinstance(n.value, ast.Call):
+            bound[n.targets[0].id] = n.value
+    out = []
+    for n in _own_nodes(fn):
+        name = None
+        if isinstance(n, ast.Delete):
+            for t in n.targets:
+                if isinstance(t, ast.Subscript) and isinstance(t.value, ast.Name):
+                    name = t.value.id
+        elif isinstance(n, (ast.Assign, ast.AugAssign)):
+            for t in (n.targets if isinstance(n, ast.Assign) else [n.target]):
+                if isinstance(t, ast.Subscript) and isinstance(t.value, ast.Name):
+                    name = t.value.id
+        elif isinstance(n, ast.Call) and isinstance(n.func, ast.Attribute) and n.func.attr in _MUTATORS and isinstance(n.func.value, ast.Name):
+            name = n.func.value.id
+        if name in bound and not any(o["local"] == name for o in out):
+            out.append({"local": name, "callee": _called_name(bound[name]), "line": n.lineno, "wrapped_fresh": _called_name(bound[name]) in _FRESH_CALLS})
+    return out
+
+
+def returns_fresh(fn: ast.FunctionDef) -> tuple[bool, str]:
+    """Every `return` of fn yields an object created in this call: a display/comprehension, dict()/list()/..., or a local that is only
+    ever bound to such values (never to an attribute, a parameter or another call's result)."""
+    params = {a.arg for a in [*fn.args.args, *fn.args.kwonlyargs, *fn.args.posonlyargs]}
+    assigns: dict[str, list[ast.expr]] = {}
+    for n in _own_nodes(fn):
+        if isinstance(n, ast.Assign):
+            for t in n.targets:
+                if isinstance(t, ast.Name):
+                    assigns.setdefault(t.id, []).append(n.value)
+        elif isinstance(n, ast.AnnAssign) and isinstance(n.target, ast.Name) and n.value is not None:
+            assigns.setdefault(n.target.id, []).append(n.value)
+
+    def fresh(e, depth=0) -> str | None:  # None = fresh, else the reason
+        if isinstance(e, (ast.Dict, ast.List, ast.Set, ast.DictComp, ast.ListComp, ast.SetComp, ast.Tuple, ast.Constant)):
+            return None
+        if isinstance(e, ast.Call) and _called_name(e) in _FRESH_CALLS:
+            return None
+        if isinstance(e, ast.Name):
+            if e.id in params:
+                return f"returns its parameter {e.id}"
+            if e.id not in assigns:
+                return f"returns {e.id}, which is not a local of the function"
+            if depth > 4:
+                return "alias chain too long"
+            for v in assigns[e.id]:
+                r = fresh(v, depth + 1)
+                if r:
+                    return f"{e.id} <- {r}"
+            return None
+        if isinstance(e, ast.Attribute):
+            return f"returns the attribute {ast.unparse(e)} (state that outlives the call)"
+        if isinstance(e, ast.Call):
+            return f"returns the result of {ast.unparse(e.func)}(...) (not known to be fresh)"
+        if isinstance(e, ast.IfExp):
+            return fresh(e.body, depth) or fresh(e.orelse, depth)
+        return f"returns {type(e).__name__}"
+
+    rets = [n for n in _own_nodes(fn) if isinstance(n, ast.Return) and n.value is not None]
+    if not rets:
+        return False, "no return statement"
+    for r in rets:
+        why = fresh(r.value)
+        if why:
+            return False, f"line {r.lineno}: {why}"
+    return True, f"{len(rets)} return statement(s), each a container created in the call"
+
+
+def analyse_ownership(funcs: list[Func], caller_names: tuple[str, ...]) -> list[dict]:
+    """For each caller (qualified-name suffix): the locals it mutates that come from calls, and whether every package function
+    with the callee's name returns a fresh container."""
+    out = []
+    for f in funcs:
+        if not any(f.full.endswith(c) for c in caller_names):
+            continue
+        for m in mutated_call_results(f.node):
+            if m["wrapped_fresh"]:
+                out.append({"caller": f.full, **m, "fresh": True, "why": f"wrapped in {m['callee']}(...) at the call site", "callees": []})
+                continue
+            cands = [g for g in funcs if g.name == m["callee"] or g.name.endswith("__" + m["callee"].lstrip("_"))]
+            verdicts = [(g.full, *returns_fresh(g.node)) for g in cands]
+            ok = bool(verdicts) and all(v[1] for v in verdicts)
+            out.append({"caller": f.full, **m, "fresh": ok, "why": "; ".join(f"{v[0]}: {v[2]}" for v in verdicts) or "callee not found in the package", "callees": [v[0] for v in verdicts]})
+    return out
